@@ -218,7 +218,7 @@ func phoutOnce(res *vkit.Result, c phoutCase) {
 				id := uint64(g*1000000 + k + 1)
 				tag := genTag(grng)
 				if !c.WithID {
-					tag = fmt.Sprintf("%s%d", tag, id) // make the line identify its report
+					tag = fmt.Sprintf("%s~%d", tag, id) // make the line identify its report ('~' is not in the tag alphabet)
 				}
 				s, w := makeSample(grng, id, tag)
 				wants[g] = append(wants[g], w)
